@@ -62,6 +62,14 @@ func (inst *InstAlloca) Type() types.Type {
 		inst.Typ = types.NewPointer(inst.ElemType)
 		inst.Typ.AddrSpace = inst.AddrSpace
 	}
+	// The address space may have been assigned after the type was cached (e.g.
+	// after NewAlloca); the cache is left as is, so that Type never writes to an
+	// instruction whose type is already present.
+	if inst.Typ.AddrSpace != inst.AddrSpace {
+		typ := types.NewPointer(inst.Typ.ElemType)
+		typ.AddrSpace = inst.AddrSpace
+		return typ
+	}
 	return inst.Typ
 }
 
